@@ -141,10 +141,10 @@ def signature(doc, case, problem):
     kind, what, _ = problem
     if kind == "crash":
         return "crash:%s:%s" % (what, case["cls"] or "plain")
-    if case["cls"]:
-        return "%s:%s:%s" % (kind, case["cls"], what)
     if what == "anchored-bool":
         return "%s:anchored-bool" % kind
+    if case["cls"]:
+        return "%s:%s:%s" % (kind, case["cls"], what)
     return "%s:plain:%s:%s" % (kind, pso.shape(case["o"]), what)
 
 
@@ -507,7 +507,8 @@ def selftest(corpus):
 def run(ctx):
     from harness import pathssearchobs as pso
     if ctx.quick:
-        plan = [("MC_PathsSearch_q.cfg", [ctx.seed % 3], False), ("MC_PathsSearch_punct.cfg", [ctx.seed % 2], False)]
+        plan = [("MC_PathsSearch_q.cfg", [ctx.seed % 3], False), ("MC_PathsSearch_punct.cfg", [ctx.seed % 2], False),
+                ("MC_PathsSearch_qn.cfg", [0], False)]
     else:
         # (cfg, shards, replay every search in both notations? otherwise the notation alternates from search to search)
         plan = [("MC_PathsSearch_tn.cfg", [0], True), ("MC_PathsSearch_t2a.cfg", [0], True), ("MC_PathsSearch_punct_t.cfg", [0, 1], True),
